@@ -67,16 +67,24 @@ def run(tier, seed):
             v.violation("crystal system %d: permutation/rotation tables break law '%s'" % (cs, law), {"cs": cs, "law": law})
         ex = np.array([[[zval(e) / 6.0 for e in row] for row in R] for R in x["rot6"]])
         rots_exact[cs] = ex
+        # call order matters when tables are shared between calls: permutations, rotations (twice), permutations again
+        perm0 = np.array(symmetry.permutations(cs), dtype=float)
         got = symmetry.rotations(cs)
+        got_copy = np.array(got, dtype=float)
+        got2 = symmetry.rotations(cs)
         cached = symmetry.ROTATIONS[cs]
         perm = symmetry.permutations(cs)
+        if not np.array_equal(np.asarray(perm, dtype=float), perm0):
+            v.violation("permutations(%d) returns a different table after rotations(%d) was called (tables share storage)" % (cs, cs), {"cs": cs})
+        if not np.array_equal(np.asarray(got2, dtype=float), got_copy) or not np.array_equal(np.asarray(got, dtype=float), got_copy):
+            v.violation("rotations(%d) returns a different table on the second call / changes a table it returned before" % cs, {"cs": cs})
         if got.shape != ex.shape or np.abs(got - ex).max() > 1e-12:
             v.violation("rotations(%d) differs from the exact rotations paired with permutations(%d) (max dev %.3g)" %
                         (cs, cs, float(np.abs(got - ex).max()) if got.shape == ex.shape else -1), {"cs": cs})
         if np.asarray(cached).shape != got.shape or not np.array_equal(np.asarray(cached), got):
             v.violation("cached ROTATIONS[%d] differs from rotations(%d)" % (cs, cs), {"cs": cs})
         if not np.array_equal(perm, np.array(sym[cs - 1]["perm"], dtype=float)):
-            raise common.MachineryError("export and permutations() disagree")
+            v.violation("permutations(%d) returned a different table now than when the tables were exported a moment ago" % cs, {"cs": cs})
         # float-level pairing on a random conforming cell (tools and laue B)
         from xfab import tools, laue
         cell = {1: [3.1, 4.2, 5.3, 81., 95., 102.], 2: [3.1, 4.2, 5.3, 90., 99., 90.], 3: [3.1, 4.2, 5.3, 90., 90., 90.],
